@@ -1338,7 +1338,14 @@ func (c *Conn) readLine() (string, error) {
 		}
 	}
 
-	return c.text.ReadLine()
+	line, err := c.text.ReadLine()
+	if err == nil && c.lineLimitReader.tooLong() {
+		// The buffered reader hands out what it had buffered of the
+		// over-long line before it reports the error. That fragment is
+		// not a line.
+		return "", ErrTooLongLine
+	}
+	return line, err
 }
 
 func (c *Conn) reset() {
